@@ -1,3 +1,4 @@
+import MithrilModel.MmrBuild
 namespace DbVerify
 
 /-- file names and digests as numbers; `dir` = the files present with the digest of their content -/
@@ -72,3 +73,493 @@ theorem fixed_sound (certified dir : List (Nat × Nat)) (range : List Nat) (allo
 
 #print axioms fixed_sound
 end DbVerify
+
+/-!
+# C10 — the model of the code as it is after the `fix:` commit
+
+`Db.verify` transliterates `InternalArtifactProver::verify_cardano_database`
+(`mithril-client/src/cardano_database_client/proving.rs`) together with the parts of
+`ImmutableFile::list_all_in_dir` / `CardanoImmutableDigester::compute_digests_for_range` it relies on;
+`Db.verifyDigests` transliterates `download_and_verify_digests`. Names are abstract (`Names ν`): the
+driver instantiates them with strings, the theorems hold for every instantiation. Digests are abstract
+values `δ` (the harness sends SHA-256 values; nothing here depends on the hash function).
+-/
+namespace Db
+
+/-- what the verifier can see of one entry of `immutable/` -/
+inductive Kind (δ : Type) where
+  | file (digest : δ)     -- regular file; `digest` = SHA-256 of its content
+  | dir                   -- directory
+  | link (live : Bool)    -- symbolic link; `live` = the target exists (`Path::exists` follows links)
+deriving DecidableEq, Repr
+
+/-- name operations used by the code -/
+structure Names (ν : Type) where
+  number : ν → Option Nat     -- `ImmutableFile::new`: the file stem parsed as `u64`
+  immExt : ν → Bool           -- extension is `chunk`, `primary` or `secondary`
+  trio : Nat → List ν         -- `format!("{n:05}.{ext}")` for the three extensions, in that order
+  lt : ν → ν → Bool           -- order of names (`BTreeMap<String, _>`, `PathBuf` inside one directory)
+
+inductive Range where
+  | full
+  | from_ (a : Nat)
+  | range (a b : Nat)
+  | upTo (b : Nat)
+deriving DecidableEq, Repr
+
+/-- `ImmutableFileRange::to_range_inclusive` -/
+def Range.bounds : Range → Nat → Option (Nat × Nat)
+  | .full, last => some (0, last)
+  | .from_ a, last => if a ≤ last then some (a, last) else none
+  | .range a b, last => if a ≤ last ∧ b ≤ last ∧ a ≤ b then some (a, b) else none
+  | .upTo b, last => if b ≤ last then some (0, b) else none
+
+inductive Verdict (ν : Type) where
+  | accepted
+  | rejected (missing tampered nonVerifiable : List ν)
+  | rangeError
+  | digesterError
+deriving DecidableEq, Repr
+
+variable {ν δ : Type} [DecidableEq ν] [DecidableEq δ]
+
+def lookup (k : ν) : List (ν × α) → Option α
+  | [] => none
+  | (a, b) :: r => if a = k then some b else lookup k r
+
+/-- `immutable_dir.join(name).exists()` -/
+def present (dir : List (ν × Kind δ)) (n : ν) : Bool :=
+  match lookup n dir with
+  | some (.link false) => false
+  | some _ => true
+  | none => false
+
+def numbersIn (lo hi : Nat) : List Nat := (List.range (hi + 1 - lo)).map (· + lo)
+
+/-- `list_missing_immutable_files` -/
+def missingNames (N : Names ν) (dir : List (ν × Kind δ)) (lo hi : Nat) : List ν :=
+  ((numbersIn lo hi).flatMap N.trio).filter fun n => !present dir n
+
+/-- regular files with an immutable extension (`walk_immutables_in_dir` + `is_immutable`) -/
+def immFiles (N : Names ν) : List (ν × Kind δ) → List (ν × δ)
+  | [] => []
+  | (n, .file d) :: r => if N.immExt n then (n, d) :: immFiles N r else immFiles N r
+  | _ :: r => immFiles N r
+
+/-- `ImmutableFile::new` on every listed file; one failure fails the listing -/
+def parseAll (N : Names ν) : List (ν × δ) → Option (List (Nat × ν × δ))
+  | [] => some []
+  | (n, d) :: r =>
+    match N.number n, parseAll N r with
+    | some k, some l => some ((k, n, d) :: l)
+    | _, _ => none
+
+def fileLe (N : Names ν) (a b : Nat × ν × δ) : Bool :=
+  a.1 < b.1 || (a.1 == b.1 && !N.lt b.2.1 a.2.1)
+
+/-- `ImmutableFile::list_all_in_dir`: sorted by `(number, path)` -/
+def listAll (N : Names ν) (dir : List (ν × Kind δ)) : Option (List (Nat × ν × δ)) :=
+  (parseAll N (immFiles N dir)).map fun l => l.mergeSort (fileLe N)
+
+def tamperedOf (certified : List (ν × δ)) (computed : List (Nat × ν × δ)) : List ν :=
+  computed.filterMap fun e =>
+    match lookup e.2.1 certified with
+    | some d => if d = e.2.2 then none else some e.2.1
+    | none => none
+
+def nonVerifiableOf (certified : List (ν × δ)) (computed : List (Nat × ν × δ)) : List ν :=
+  computed.filterMap fun e =>
+    match lookup e.2.1 certified with
+    | some _ => none
+    | none => some e.2.1
+
+/-- the final decision of `verify_cardano_database` once the lists are known (after the fix: the
+per-name comparison is part of the success path). A proof can be computed iff there is at least one
+digest and every digest is a leaf of the certified tree; such a proof is taken to verify
+(completeness of the MMR library; compared by K). -/
+def conclude (certified : List (ν × δ)) (missing : List ν) (computed : List (Nat × ν × δ)) : Verdict ν :=
+  if (!computed.isEmpty && computed.all fun e => certified.any fun c => decide (c.2 = e.2.2))
+      && missing.isEmpty && (tamperedOf certified computed).isEmpty
+      && (nonVerifiableOf certified computed).isEmpty then .accepted
+  else .rejected missing (tamperedOf certified computed) (nonVerifiableOf certified computed)
+
+/-- `verify_cardano_database`. `dir = none`: there is no `immutable` directory. -/
+def verify (N : Names ν) (certified : List (ν × δ)) (dir : Option (List (ν × Kind δ)))
+    (range : Range) (last : Nat) (allowMissing : Bool) : Verdict ν :=
+  match range.bounds last with
+  | none => .rangeError
+  | some (lo, hi) =>
+    match dir with
+    | none => .digesterError
+    | some dir =>
+      match listAll N dir with
+      | none => .digesterError
+      | some all =>
+        conclude certified (if allowMissing then [] else missingNames N dir lo hi)
+          (all.filter fun e => decide (lo ≤ e.1) && decide (e.1 ≤ hi))
+
+/-! ## the digest list -/
+
+/-- insertion into a `BTreeMap`: sorted by name, a later binding replaces an earlier one -/
+def insertMap (N : Names ν) (e : ν × δ) : List (ν × δ) → List (ν × δ)
+  | [] => [e]
+  | x :: r => if e.1 = x.1 then e :: r else if N.lt e.1 x.1 then e :: x :: r else x :: insertMap N e r
+
+def toMap (N : Names ν) (l : List (ν × δ)) : List (ν × δ) := l.foldl (fun m e => insertMap N e m) []
+
+/-- the served list as the client keeps it: a map, restricted to names whose number is ≤ the beacon -/
+def served (N : Names ν) (l : List (ν × δ)) (last : Nat) : List (ν × δ) :=
+  (toMap N l).filter fun e => match N.number e.1 with | some k => decide (k ≤ last) | none => false
+
+/-- `download_and_verify_digests`, root comparison replaced by comparison of the leaf lists
+(justified by `root_binding` below: the MMR root determines the ordered leaf list).
+`certOk` = the certificate's signed message is the hash of its own protocol message. -/
+def verifyDigests (N : Names ν) (l : List (ν × δ)) (last : Nat) (signedLeaves : List δ) (certOk : Bool) :
+    Option (List (ν × δ)) :=
+  let f := served N l last
+  if f.isEmpty then none
+  else if certOk && decide (f.map (·.2) = signedLeaves) then some f else none
+
+/-- the same decision on roots, for any merge function -/
+def verifyDigestsRoot (m : δ → δ → δ) (N : Names ν) (l : List (ν × δ)) (last : Nat) (signedRoot : δ) :
+    Option (List (ν × δ)) :=
+  let f := served N l last
+  if MmrBuild.root m (f.map (·.2)) = some signedRoot then some f else none
+
+/-! ## lemmas -/
+
+theorem mem_immFiles (N : Names ν) (n : ν) (d : δ) : ∀ (dir : List (ν × Kind δ)),
+    (n, d) ∈ immFiles N dir ↔ ((n, Kind.file d) ∈ dir ∧ N.immExt n = true) := by
+  intro dir
+  induction dir with
+  | nil => simp [immFiles]
+  | cons e r ih =>
+    obtain ⟨a, k⟩ := e
+    cases k with
+    | file d' =>
+      cases hx : N.immExt a with
+      | true =>
+        simp only [immFiles, hx, if_true, List.mem_cons, ih, Prod.mk.injEq, Kind.file.injEq]
+        constructor
+        · rintro (⟨rfl, rfl⟩ | ⟨h1, h2⟩)
+          · exact ⟨Or.inl ⟨rfl, rfl⟩, hx⟩
+          · exact ⟨Or.inr h1, h2⟩
+        · rintro ⟨(⟨rfl, rfl⟩ | h1), h2⟩
+          · exact Or.inl ⟨rfl, rfl⟩
+          · exact Or.inr ⟨h1, h2⟩
+      | false =>
+        simp only [immFiles, hx, Bool.false_eq_true, if_false, List.mem_cons, ih, Prod.mk.injEq,
+          Kind.file.injEq]
+        constructor
+        · rintro ⟨h1, h2⟩; exact ⟨Or.inr h1, h2⟩
+        · rintro ⟨(⟨rfl, rfl⟩ | h1), h2⟩
+          · rw [hx] at h2; cases h2
+          · exact ⟨h1, h2⟩
+    | dir => simp [immFiles, ih]
+    | link b => simp [immFiles, ih]
+
+theorem parseAll_mem (N : Names ν) : ∀ (fs : List (ν × δ)) (l : List (Nat × ν × δ)),
+    parseAll N fs = some l →
+    ∀ k n d, (k, n, d) ∈ l ↔ ((n, d) ∈ fs ∧ N.number n = some k) := by
+  intro fs
+  induction fs with
+  | nil => intro l h; simp [parseAll] at h; subst h; simp
+  | cons e r ih =>
+    intro l h k n d
+    obtain ⟨a, b⟩ := e
+    simp only [parseAll] at h
+    cases hn : N.number a with
+    | none => simp [hn] at h
+    | some ka =>
+      cases hr : parseAll N r with
+      | none => simp [hn, hr] at h
+      | some lr =>
+        simp only [hn, hr, Option.some.injEq] at h
+        subst h
+        simp only [List.mem_cons, Prod.mk.injEq, ih lr hr]
+        constructor
+        · rintro (⟨rfl, rfl, rfl⟩ | ⟨h1, h2⟩)
+          · exact ⟨Or.inl ⟨rfl, rfl⟩, hn⟩
+          · exact ⟨Or.inr h1, h2⟩
+        · rintro ⟨(⟨rfl, rfl⟩ | h1), h2⟩
+          · rw [hn] at h2; injection h2 with h2; exact Or.inl ⟨h2.symm, rfl, rfl⟩
+          · exact Or.inr ⟨h1, h2⟩
+
+/-- what `list_all_in_dir` returns: exactly the regular files with an immutable extension, with their numbers -/
+theorem listAll_mem (N : Names ν) (dir : List (ν × Kind δ)) (all : List (Nat × ν × δ))
+    (h : listAll N dir = some all) (k : Nat) (n : ν) (d : δ) :
+    (k, n, d) ∈ all ↔ ((n, Kind.file d) ∈ dir ∧ N.immExt n = true ∧ N.number n = some k) := by
+  unfold listAll at h
+  cases hp : parseAll N (immFiles N dir) with
+  | none => simp [hp] at h
+  | some l =>
+    simp only [hp, Option.map_some, Option.some.injEq] at h
+    subst h
+    rw [List.mem_mergeSort, parseAll_mem N _ l hp, mem_immFiles]
+    constructor
+    · rintro ⟨⟨h1, h2⟩, h3⟩; exact ⟨h1, h2, h3⟩
+    · rintro ⟨h1, h2, h3⟩; exact ⟨⟨h1, h2⟩, h3⟩
+
+theorem mem_numbersIn (lo hi k : Nat) : k ∈ numbersIn lo hi ↔ (lo ≤ k ∧ k ≤ hi) := by
+  simp only [numbersIn, List.mem_map, List.mem_range]
+  constructor
+  · rintro ⟨a, h1, rfl⟩; omega
+  · rintro ⟨h1, h2⟩; exact ⟨k - lo, by omega, by omega⟩
+
+theorem mem_missingNames (N : Names ν) (dir : List (ν × Kind δ)) (lo hi : Nat) (n : ν) :
+    n ∈ missingNames N dir lo hi ↔ ((∃ k, lo ≤ k ∧ k ≤ hi ∧ n ∈ N.trio k) ∧ present dir n = false) := by
+  simp only [missingNames, List.mem_filter, List.mem_flatMap, mem_numbersIn, Bool.not_eq_true']
+  constructor
+  · rintro ⟨⟨k, ⟨h1, h2⟩, h3⟩, h4⟩; exact ⟨⟨k, h1, h2, h3⟩, h4⟩
+  · rintro ⟨⟨k, h1, h2, h3⟩, h4⟩; exact ⟨⟨k, ⟨h1, h2⟩, h3⟩, h4⟩
+
+theorem mem_tamperedOf (certified : List (ν × δ)) (computed : List (Nat × ν × δ)) (n : ν) :
+    n ∈ tamperedOf certified computed ↔
+      ∃ k d d', (k, n, d) ∈ computed ∧ lookup n certified = some d' ∧ d' ≠ d := by
+  simp only [tamperedOf, List.mem_filterMap]
+  constructor
+  · rintro ⟨⟨k, a, d⟩, hm, h⟩
+    dsimp only at h
+    cases hl : lookup a certified with
+    | none => simp [hl] at h
+    | some d' =>
+      by_cases hd : d' = d
+      · simp [hl, hd] at h
+      · simp [hl, hd] at h; subst h; exact ⟨k, d, d', hm, hl, hd⟩
+  · rintro ⟨k, d, d', hm, hl, hd⟩
+    exact ⟨(k, n, d), hm, by simp [hl, hd]⟩
+
+theorem mem_nonVerifiableOf (certified : List (ν × δ)) (computed : List (Nat × ν × δ)) (n : ν) :
+    n ∈ nonVerifiableOf certified computed ↔
+      ∃ k d, (k, n, d) ∈ computed ∧ lookup n certified = none := by
+  simp only [nonVerifiableOf, List.mem_filterMap]
+  constructor
+  · rintro ⟨⟨k, a, d⟩, hm, h⟩
+    dsimp only at h
+    cases hl : lookup a certified with
+    | none => simp [hl] at h; subst h; exact ⟨k, d, hm, hl⟩
+    | some d' => simp [hl] at h
+  · rintro ⟨k, d, hm, hl⟩
+    exact ⟨(k, n, d), hm, by simp [hl]⟩
+
+/-- the three ways a regular file of the range can be judged against the certified map -/
+inductive Judgement where | verified | tampered | nonVerifiable
+deriving DecidableEq, Repr
+
+def judge (certified : List (ν × δ)) (n : ν) (d : δ) : Judgement :=
+  match lookup n certified with
+  | some d' => if d' = d then .verified else .tampered
+  | none => .nonVerifiable
+
+theorem verify_eq (N : Names ν) (certified : List (ν × δ)) (dir : List (ν × Kind δ))
+    (range : Range) (last : Nat) (allowMissing : Bool) (lo hi : Nat) (all : List (Nat × ν × δ))
+    (hb : range.bounds last = some (lo, hi)) (hl : listAll N dir = some all) :
+    verify N certified (some dir) range last allowMissing =
+      conclude certified (if allowMissing then [] else missingNames N dir lo hi)
+        (all.filter fun e => decide (lo ≤ e.1) && decide (e.1 ≤ hi)) := by
+  simp only [verify, hb, hl]
+
+theorem conclude_accepted (certified : List (ν × δ)) (missing : List ν) (computed : List (Nat × ν × δ))
+    (h : conclude certified missing computed = .accepted) :
+    computed ≠ [] ∧ missing = [] ∧ tamperedOf certified computed = [] ∧
+      nonVerifiableOf certified computed = [] := by
+  unfold conclude at h
+  by_cases hc : ((!computed.isEmpty && computed.all fun e => certified.any fun c => decide (c.2 = e.2.2))
+      && missing.isEmpty && (tamperedOf certified computed).isEmpty
+      && (nonVerifiableOf certified computed).isEmpty) = true
+  · simp only [Bool.and_eq_true, List.isEmpty_iff, Bool.not_eq_true'] at hc
+    obtain ⟨⟨⟨⟨hne, _⟩, hmiss⟩, ht⟩, hnv⟩ := hc
+    refine ⟨?_, hmiss, ht, hnv⟩
+    intro he; rw [he] at hne; simp at hne
+  · rw [if_neg hc] at h; cases h
+
+theorem conclude_rejected (certified : List (ν × δ)) (missing : List ν) (computed : List (Nat × ν × δ))
+    (m t nv : List ν) (h : conclude certified missing computed = .rejected m t nv) :
+    m = missing ∧ t = tamperedOf certified computed ∧ nv = nonVerifiableOf certified computed := by
+  unfold conclude at h
+  by_cases hc : ((!computed.isEmpty && computed.all fun e => certified.any fun c => decide (c.2 = e.2.2))
+      && missing.isEmpty && (tamperedOf certified computed).isEmpty
+      && (nonVerifiableOf certified computed).isEmpty) = true
+  · rw [if_pos hc] at h; cases h
+  · rw [if_neg hc] at h; injection h with h1 h2 h3; exact ⟨h1.symm, h2.symm, h3.symm⟩
+
+theorem verify_accepted_inv (N : Names ν) (certified : List (ν × δ)) (dir : Option (List (ν × Kind δ)))
+    (range : Range) (last : Nat) (allowMissing : Bool)
+    (h : verify N certified dir range last allowMissing = .accepted) :
+    ∃ d lo hi all, dir = some d ∧ range.bounds last = some (lo, hi) ∧ listAll N d = some all := by
+  unfold verify at h
+  cases hb : range.bounds last with
+  | none => simp [hb] at h
+  | some b =>
+    obtain ⟨lo, hi⟩ := b
+    cases dir with
+    | none => simp [hb] at h
+    | some d =>
+      cases hl : listAll N d with
+      | none => simp [hb, hl] at h
+      | some all => exact ⟨d, lo, hi, all, rfl, rfl, hl⟩
+
+theorem verify_rejected_inv (N : Names ν) (certified : List (ν × δ)) (dir : Option (List (ν × Kind δ)))
+    (range : Range) (last : Nat) (allowMissing : Bool) (m t nv : List ν)
+    (h : verify N certified dir range last allowMissing = .rejected m t nv) :
+    ∃ d lo hi all, dir = some d ∧ range.bounds last = some (lo, hi) ∧ listAll N d = some all := by
+  unfold verify at h
+  cases hb : range.bounds last with
+  | none => simp [hb] at h
+  | some b =>
+    obtain ⟨lo, hi⟩ := b
+    cases dir with
+    | none => simp [hb] at h
+    | some d =>
+      cases hl : listAll N d with
+      | none => simp [hb, hl] at h
+      | some all => exact ⟨d, lo, hi, all, rfl, rfl, hl⟩
+
+theorem lookup_of_lists_empty (certified : List (ν × δ)) (computed : List (Nat × ν × δ))
+    (ht : tamperedOf certified computed = []) (hn : nonVerifiableOf certified computed = [])
+    (k : Nat) (n : ν) (d : δ) (hm : (k, n, d) ∈ computed) : lookup n certified = some d := by
+  cases hlk : lookup n certified with
+  | none =>
+    have : n ∈ nonVerifiableOf certified computed := (mem_nonVerifiableOf certified _ n).2 ⟨k, d, hm, hlk⟩
+    rw [hn] at this; cases this
+  | some d' =>
+    by_cases hd : d' = d
+    · rw [hd]
+    · have : n ∈ tamperedOf certified computed := (mem_tamperedOf certified _ n).2 ⟨k, d, d', hm, hlk, hd⟩
+      rw [ht] at this; cases this
+
+/-- **soundness**: acceptance implies that every name of the range is present (unless gaps were
+allowed) and that every regular immutable file of the range carries the digest certified for its own name -/
+theorem verify_sound (N : Names ν) (certified : List (ν × δ)) (dir : Option (List (ν × Kind δ)))
+    (range : Range) (last : Nat) (allowMissing : Bool)
+    (h : verify N certified dir range last allowMissing = .accepted) :
+    ∃ d lo hi, dir = some d ∧ range.bounds last = some (lo, hi) ∧
+      (allowMissing = false → ∀ k, lo ≤ k → k ≤ hi → ∀ n ∈ N.trio k, present d n = true) ∧
+      (∀ n dg k, (n, Kind.file dg) ∈ d → N.immExt n = true → N.number n = some k → lo ≤ k → k ≤ hi →
+          lookup n certified = some dg) ∧
+      (∃ n dg k, (n, Kind.file dg) ∈ d ∧ N.immExt n = true ∧ N.number n = some k ∧ lo ≤ k ∧ k ≤ hi) := by
+  obtain ⟨d, lo, hi, all, rfl, hb, hl⟩ := verify_accepted_inv N certified dir range last allowMissing h
+  rw [verify_eq N certified d range last allowMissing lo hi all hb hl] at h
+  obtain ⟨hne, hmiss, ht, hnv⟩ := conclude_accepted _ _ _ h
+  refine ⟨d, lo, hi, rfl, hb, ?_, ?_, ?_⟩
+  · intro ham k h1 h2 n hn
+    subst ham
+    simp only [Bool.false_eq_true, if_false] at hmiss
+    cases hp : present d n with
+    | true => rfl
+    | false =>
+      have : n ∈ missingNames N d lo hi := (mem_missingNames N d lo hi n).2 ⟨⟨k, h1, h2, hn⟩, hp⟩
+      rw [hmiss] at this; cases this
+  · intro n dg k hmem hx hnum h1 h2
+    have hall : (k, n, dg) ∈ all := (listAll_mem N d all hl k n dg).2 ⟨hmem, hx, hnum⟩
+    exact lookup_of_lists_empty certified _ ht hnv k n dg (by simp [List.mem_filter, hall, h1, h2])
+  · cases hf : all.filter fun e => decide (lo ≤ e.1) && decide (e.1 ≤ hi) with
+    | nil => exact absurd hf hne
+    | cons e r =>
+      obtain ⟨k, n, dg⟩ := e
+      have hm : (k, n, dg) ∈ all.filter fun e => decide (lo ≤ e.1) && decide (e.1 ≤ hi) := by
+        rw [hf]; simp
+      simp only [List.mem_filter, Bool.and_eq_true, decide_eq_true_eq] at hm
+      obtain ⟨h1, h2, h3⟩ := (listAll_mem N d all hl k n dg).1 hm.1
+      exact ⟨n, dg, k, h1, h2, h3, hm.2.1, hm.2.2⟩
+
+/-- **the report is complete**: on a rejection every offending name is in one of the three lists -/
+theorem verify_report_complete (N : Names ν) (certified : List (ν × δ)) (dir : Option (List (ν × Kind δ)))
+    (range : Range) (last : Nat) (allowMissing : Bool) (m t nv : List ν)
+    (h : verify N certified dir range last allowMissing = .rejected m t nv) :
+    ∃ d lo hi, dir = some d ∧ range.bounds last = some (lo, hi) ∧
+      (allowMissing = false → ∀ k, lo ≤ k → k ≤ hi → ∀ n ∈ N.trio k, present d n = false → n ∈ m) ∧
+      (∀ n dg k, (n, Kind.file dg) ∈ d → N.immExt n = true → N.number n = some k → lo ≤ k → k ≤ hi →
+          (∀ d', lookup n certified = some d' → d' ≠ dg → n ∈ t) ∧
+          (lookup n certified = none → n ∈ nv)) := by
+  obtain ⟨d, lo, hi, all, rfl, hb, hl⟩ := verify_rejected_inv N certified dir range last allowMissing m t nv h
+  rw [verify_eq N certified d range last allowMissing lo hi all hb hl] at h
+  obtain ⟨hm, ht, hnv⟩ := conclude_rejected _ _ _ m t nv h
+  refine ⟨d, lo, hi, rfl, hb, ?_, ?_⟩
+  · intro ham k h1 h2 n hn hp
+    subst ham
+    simp only [Bool.false_eq_true, if_false] at hm
+    rw [hm]
+    exact (mem_missingNames N d lo hi n).2 ⟨⟨k, h1, h2, hn⟩, hp⟩
+  · intro n dg k hmem hx hnum h1 h2
+    have hall : (k, n, dg) ∈ all := (listAll_mem N d all hl k n dg).2 ⟨hmem, hx, hnum⟩
+    have hc : (k, n, dg) ∈ all.filter fun e => decide (lo ≤ e.1) && decide (e.1 ≤ hi) := by
+      simp [List.mem_filter, hall, h1, h2]
+    constructor
+    · intro d' hlk hd
+      rw [ht]
+      exact (mem_tamperedOf certified _ n).2 ⟨k, dg, d', hc, hlk, hd⟩
+    · intro hlk
+      rw [hnv]
+      exact (mem_nonVerifiableOf certified _ n).2 ⟨k, dg, hc, hlk⟩
+
+/-- nothing is reported without a reason: the lists contain only offending names -/
+theorem verify_report_exact (N : Names ν) (certified : List (ν × δ)) (dir : Option (List (ν × Kind δ)))
+    (range : Range) (last : Nat) (allowMissing : Bool) (m t nv : List ν)
+    (h : verify N certified dir range last allowMissing = .rejected m t nv) :
+    ∃ d lo hi, dir = some d ∧ range.bounds last = some (lo, hi) ∧
+      (∀ n ∈ m, allowMissing = false ∧ present d n = false ∧ ∃ k, lo ≤ k ∧ k ≤ hi ∧ n ∈ N.trio k) ∧
+      (∀ n ∈ t, ∃ dg d', (n, Kind.file dg) ∈ d ∧ lookup n certified = some d' ∧ d' ≠ dg) ∧
+      (∀ n ∈ nv, (∃ dg, (n, Kind.file dg) ∈ d) ∧ lookup n certified = none) := by
+  obtain ⟨d, lo, hi, all, rfl, hb, hl⟩ := verify_rejected_inv N certified dir range last allowMissing m t nv h
+  rw [verify_eq N certified d range last allowMissing lo hi all hb hl] at h
+  obtain ⟨hm, ht, hnv⟩ := conclude_rejected _ _ _ m t nv h
+  refine ⟨d, lo, hi, rfl, hb, ?_, ?_, ?_⟩
+  · intro n hn
+    rw [hm] at hn
+    cases allowMissing with
+    | true => simp at hn
+    | false =>
+      simp only [Bool.false_eq_true, if_false] at hn
+      obtain ⟨⟨k, h1, h2, h3⟩, h4⟩ := (mem_missingNames N d lo hi n).1 hn
+      exact ⟨rfl, h4, k, h1, h2, h3⟩
+  · intro n hn
+    rw [ht] at hn
+    obtain ⟨k, dg, d', hc, hlk, hd⟩ := (mem_tamperedOf certified _ n).1 hn
+    simp only [List.mem_filter] at hc
+    exact ⟨dg, d', ((listAll_mem N d all hl k n dg).1 hc.1).1, hlk, hd⟩
+  · intro n hn
+    rw [hnv] at hn
+    obtain ⟨k, dg, hc, hlk⟩ := (mem_nonVerifiableOf certified _ n).1 hn
+    simp only [List.mem_filter] at hc
+    exact ⟨⟨dg, ((listAll_mem N d all hl k n dg).1 hc.1).1⟩, hlk⟩
+
+/-! ## the digest list binds to the signed root -/
+
+theorem verifyDigests_binding (N : Names ν) (l : List (ν × δ)) (last : Nat) (signedLeaves : List δ)
+    (certOk : Bool) (f : List (ν × δ)) (h : verifyDigests N l last signedLeaves certOk = some f) :
+    f = served N l last ∧ f.map (·.2) = signedLeaves ∧ certOk = true ∧ f ≠ [] := by
+  unfold verifyDigests at h
+  dsimp only at h
+  split at h
+  · cases h
+  · rename_i hne
+    split at h
+    · rename_i hc
+      injection h with h
+      simp only [Bool.and_eq_true, decide_eq_true_eq] at hc
+      subst h
+      refine ⟨rfl, hc.2, hc.1, ?_⟩
+      intro he; rw [he] at hne; simp at hne
+    · cases h
+
+/-- **root binding**: if the served list (restricted to the beacon) reproduces the signed root, its
+digests ARE the certified leaf list, in order — for every injective merge whose values no leaf equals
+(`MmrBuild.root_injective`; byte level: `MmrBuild.root_injective_bytes`) -/
+theorem root_binding (m : δ → δ → δ) (hinj : ∀ a b c d, m a b = m c d → a = c ∧ b = d)
+    (N : Names ν) (l : List (ν × δ)) (last : Nat) (signedRoot : δ) (certifiedLeaves : List δ)
+    (hc : MmrBuild.root m certifiedLeaves = some signedRoot)
+    (hl : ∀ a ∈ certifiedLeaves, ¬ ExprTree.IsMerge m a)
+    (f : List (ν × δ)) (hl' : ∀ a ∈ (served N l last).map (·.2), ¬ ExprTree.IsMerge m a)
+    (h : verifyDigestsRoot m N l last signedRoot = some f) :
+    f = served N l last ∧ f.map (·.2) = certifiedLeaves := by
+  unfold verifyDigestsRoot at h
+  dsimp only at h
+  split at h
+  · rename_i hr
+    injection h with h
+    subst h
+    exact ⟨rfl, MmrBuild.root_injective m hinj _ _ hl' hl signedRoot hr hc⟩
+  · cases h
+
+end Db
